@@ -423,8 +423,8 @@ pub fn parse_term(to_parse: &str) -> Result<Unifiable, String> {
     // Check for stray quotes, as parse_arguments() and
     // parse_linked_list() do, and for escaped characters, eg: \,
     let (unescaped, num_quotes) = unescape(&chrs);
+    s = unescaped.trim();
     if let Some(err) = check_quotes(s, num_quotes) { return Err(err); }
-    s = &unescaped;
 
     return make_term(s, has_digit, has_non_digit, has_period);
 
